@@ -236,6 +236,17 @@ let () = iter_lines (fun line ->
            (if it = 2000 then "internal" else if it = 1000 then "same" else "new") (string_of_z cn)
            (if it = 2000 then "4" else string_of_z cp) (if it = 2000 then 0 else 1)
        | GenPrelude.Stuck -> print_endline "Stuck" | GenPrelude.Fuel -> print_endline "Fuel" | GenPrelude.Exn -> print_endline "Exn")
+    | ["genxc"; _; _; _; kind; f; mode] ->
+      (* the GENERATED pvExtraCheck: position / iterator 5 of 0..39; an inconsistent functor (mode 1) = the lookup misses / the neighbours compare the
+         other way round; functor_throws_ = f *)
+      let zi = z_of_int in
+      let r =
+        if kind = "h" then
+          Gen_XCheckH.pvExtraCheck (f = "1") (fun a b -> int_of_z a = int_of_z b) (fun x -> x) (fun x -> if mode = "1" then zi (-1) else x) (fun x -> x) (zi 5)
+        else
+          Gen_XCheckT.pvExtraCheck (f = "1") (fun a b -> int_of_z a <> int_of_z b) (zi 0) (zi 40) (fun x -> zi (int_of_z x - 1)) (fun x -> zi (int_of_z x + 1))
+            (fun a b -> if mode = "1" then int_of_z b < int_of_z a else int_of_z a < int_of_z b) (zi 5) in
+      Printf.printf "check=%d\n" (if r then 1 else 0)
     | ["noderemove"; _; n; k; index] ->
       let n = int_of_string n and k = int_of_string k and index = int_of_string index in
       let cap = if n <= 2 then 2 else 4 in
